@@ -49,3 +49,13 @@ def handler_sig(v):
     elif ec:
         args += ', u64'
     return 'extern "x86-interrupt" fn(%s)%s' % (args, ' -> !' if div else '')
+
+
+# ---- interrupt delivery in 64-bit mode (Intel SDM 3A 6.14.2 / figure 6-9; AMD APM 2 8.9.3): the CPU pushes
+# SS, RSP, RFLAGS, CS, RIP (and then the error code for the error-code vectors), each as a 64-bit slot, so that in
+# memory, from the final stack pointer upwards: [error code] RIP CS RFLAGS RSP SS. IRETQ pops in the same ascending order.
+FRAME_SLOTS = [('instruction_pointer', 0, 8), ('code_segment', 8, 2), ('cpu_flags', 16, 8), ('stack_pointer', 24, 8),
+               ('stack_segment', 32, 2)]
+FRAME_SIZE = 40
+# the order in which a software-built frame must be pushed for IRETQ (highest address first)
+IRETQ_PUSH_ORDER = ['stack_segment', 'stack_pointer', 'cpu_flags', 'code_segment', 'instruction_pointer']
